@@ -4,6 +4,7 @@ import (
 	"encoding/binary"
 	"fmt"
 	"log"
+	"math"
 	"sync"
 
 	"github.com/janelia-flyem/dvid/datastore"
@@ -467,6 +468,13 @@ func (d *Data) GetBlocks(v dvid.VersionID, start dvid.ChunkPoint3d, span int32) 
 
 	// Allocate one uncompressed-sized slice with background values.
 	blockBytes := int32(d.BlockSize().Prod()) * d.Values.BytesPerElement()
+	limit := server.MaxDataRequest
+	if limit > math.MaxInt32 {
+		limit = math.MaxInt32 // the buffer is indexed with int32 offsets below
+	}
+	if span < 1 || blockBytes < 1 || int64(blockBytes)*int64(span) > limit {
+		return nil, fmt.Errorf("span of %d blocks (%d bytes each) must be positive and at most %d bytes in total", span, blockBytes, limit)
+	}
 	numBytes := blockBytes * span
 
 	buf := make([]byte, numBytes, numBytes)
